@@ -6,7 +6,12 @@ the module attribute ``logfile.os`` with a proxy whose ``rename``/``remove`` rai
 the interrupted object is abandoned and a new ``LogFile`` is made on the same directory (= restart).
 
 case = {"rl": int|None, "max": int|None, "rot0": [[idx, hex], ...] (descending idx), "cur0": hex|None,
-        "ops": [["w", hex] | ["t", text] | ["rot"] | ["reopen"] | ["extmove"] | ["crot", k] | ["cw", k, "w"|"t", data]]}
+        "ops": [["w", hex] | ["t", text] | ["rot"] | ["reopen"] | ["extmove"] | ["crot", k] | ["cw", k, "w"|"t", data]],
+        "name": optional log name relative to the directory (default "t.log"): may carry a sub-directory, glob
+                metacharacters, spaces, non-ASCII}
+A crash budget k counts EVERY directory-mutating call made through ``logfile.os`` (and every open-for-write of
+anything but the current log); calls the model does not know (link, unlink, replace, ...) are also recorded in the
+observation (``?link+unlink``), which breaks the correspondence.
 ``extmove`` = an outside tool renames the current file out of the directory, then ``reopen()`` (its documented use).
 """
 from __future__ import annotations
@@ -18,6 +23,7 @@ import tempfile
 from harness.common import Failure, Spec, coq_bytes, coq_list, coq_option
 
 NAME = "t.log"
+NAMES = ["sub/t.log", "a[1].log", "a*.log", "a?.log", "x[ab]y.log", "sp ace.log", "na\u00efve.log", "we[b/acc.log"]
 
 
 class _Crash(BaseException):
@@ -25,14 +31,28 @@ class _Crash(BaseException):
 
 
 class _OsProxy:
-    """stands in for the ``os`` module inside logfile.py; counts rename/remove calls against a budget"""
+    """stands in for the ``os`` module inside logfile.py.  Every directory-mutating call is a crash point: the
+    calls the model knows (``rename``/``remove``: the steps of rotate()) count against the crash budget; any other
+    mutating call (link, unlink, replace, symlink, truncate, mkdir, rmdir, ...) ALSO counts against the budget and is
+    recorded in the observation, which breaks the correspondence (the model has no such step)."""
+
+    UNKNOWN = ("replace", "unlink", "link", "symlink", "truncate", "ftruncate", "mkdir", "makedirs", "rmdir",
+               "removedirs", "renames", "mkfifo", "mknod")
 
     def __init__(self, real):
         self._real = real
         self.budget = None
+        self.unknown = []
 
     def __getattr__(self, k):
-        return getattr(self._real, k)
+        v = getattr(self._real, k)
+        if k in self.UNKNOWN:
+            def traced(*a, **kw):
+                self.unknown.append(k)
+                self._tick()
+                return v(*a, **kw)
+            return traced
+        return v
 
     def _tick(self):
         if self.budget is not None:
@@ -49,15 +69,16 @@ class _OsProxy:
         return self._real.remove(a)
 
 
-def _snapshot(d, lf):
+def _snapshot(d, lf, name=NAME):
     rot, cur = [], None
+    d, base = os.path.split(os.path.join(d, name))
     for fn in os.listdir(d):
         with open(os.path.join(d, fn), "rb") as f:
             data = f.read()
-        if fn == NAME:
+        if fn == base:
             cur = data
-        elif fn.startswith(NAME + ".") and fn[len(NAME) + 1:].isdigit():
-            rot.append((int(fn[len(NAME) + 1:]), data))
+        elif fn.startswith(base + ".") and fn[len(base) + 1:].isdigit():
+            rot.append((int(fn[len(base) + 1:]), data))
         else:
             rot.append((-1, fn.encode()))        # a stray file: shows up in the observation
     rot.sort(key=lambda e: -e[0])
@@ -85,21 +106,36 @@ def impl(case) -> str:
     out = []
     lf = None
     moved = 0
+    name = case.get("name") or NAME
+    path = os.path.join(d, name)
+    had_open = "open" in vars(logfile)
+    saved_open = vars(logfile).get("open")
+
+    def traced_open(file, mode="r", *a, **kw):
+        # the only file logfile.py opens for writing is the current log; anything else is a step the model lacks
+        if any(c in mode for c in "wax+") and os.path.abspath(file) != os.path.abspath(path):
+            proxy.unknown.append("open:" + os.path.basename(str(file)))
+            proxy._tick()
+        return open(file, mode, *a, **kw)
+
     try:
+        os.makedirs(os.path.dirname(path), exist_ok=True)
         for i, h in case["rot0"]:
-            with open(os.path.join(d, f"{NAME}.{i}"), "wb") as f:
+            with open(f"{path}.{i}", "wb") as f:
                 f.write(bytes.fromhex(h))
         if case["cur0"] is not None:
-            with open(os.path.join(d, NAME), "wb") as f:
+            with open(path, "wb") as f:
                 f.write(bytes.fromhex(case["cur0"]))
         logfile.os = proxy
+        logfile.open = traced_open
 
         def make():
-            return logfile.LogFile(NAME, d, rotateLength=case["rl"], maxRotatedFiles=case["max"])
+            return logfile.LogFile(name, d, rotateLength=case["rl"], maxRotatedFiles=case["max"])
 
         lf = make()
         for op in case["ops"]:
             crashed = False
+            del proxy.unknown[:]
             if op[0] == "w":
                 lf.write(bytes.fromhex(op[1]))
             elif op[0] == "t":
@@ -112,7 +148,7 @@ def impl(case) -> str:
                 # an external rotation tool takes the current file away; reopen() is the documented response
                 moved += 1
                 os.makedirs(d + "_moved", exist_ok=True)
-                os.rename(os.path.join(d, NAME), os.path.join(d + "_moved", str(moved)))
+                os.rename(path, os.path.join(d + "_moved", str(moved)))
                 lf.reopen()
             elif op[0] in ("crot", "cw"):
                 proxy.budget = op[1]
@@ -134,10 +170,17 @@ def impl(case) -> str:
                     lf = make()
             else:
                 raise ValueError(op)
-            out.append(("!" if crashed or op[0] == "crot" else "", _snapshot(d, lf)))
-        initial = _snapshot(d, lf) if not case["ops"] else None
+            mark = "!" if crashed or op[0] == "crot" else ""
+            if proxy.unknown:
+                mark += "?" + "+".join(proxy.unknown)
+            out.append((mark, _snapshot(d, lf, name)))
+        initial = _snapshot(d, lf, name) if not case["ops"] else None
     finally:
         logfile.os = real_os
+        if had_open:
+            logfile.open = saved_open
+        elif "open" in vars(logfile):
+            del logfile.open
         try:
             if lf is not None:
                 lf.close()
@@ -161,7 +204,7 @@ def model_equal(case, a, b):
 
 
 def _parse(snap):
-    body = snap.lstrip("!")[1:-1]
+    body = snap[snap.index("["):][1:-1]
     rot_s, cur_s, size_s = body.split("|")
     rot = []
     for e in rot_s.split(",") if rot_s else []:
@@ -313,8 +356,19 @@ def gen(rng, tier):
             for mx in (None, 1):
                 cases.append({"rl": rl, "max": mx, "rot0": [], "cur0": None,
                               "ops": [["w", "61" * fill], ["extmove"], ["w", "62"], ["t", "\u20ac"], ["w", "6363"], ["w", "64"]]})
+    # the log's name: a sub-directory component, glob metacharacters, spaces, non-ASCII
+    for name in NAMES:
+        for mx in (None, 2):
+            cases.append({"rl": 2, "max": mx, "rot0": [], "cur0": None, "name": name,
+                          "ops": [["w", "6161"], ["w", "6262"], ["w", "6363"], ["t", "\u20ac"], ["w", "6464"], ["rot"],
+                                  ["w", "65"]]})
+            cases.append({"rl": 2, "max": mx, "rot0": [[2, "78"], [1, "79"]], "cur0": "7a7a", "name": name,
+                          "ops": [["crot", 1], ["w", "6161"], ["w", "6262"], ["reopen"], ["w", "6363"]]})
     for _ in range(700 if quick else 7000):
-        cases.append(gen_case(rng))
+        c = gen_case(rng)
+        if rng.random() < 0.25:
+            c["name"] = rng.choice(NAMES)
+        cases.append(c)
     for _ in range(150 if quick else 1500):
         cases.append(gen_case(rng, crash=False))
     for _ in range(30 if quick else 300):
@@ -382,12 +436,13 @@ SPEC = Spec(
     to_coq=to_coq,
     model_equal=model_equal,
     nontrivial=lambda c, o: o.count(":") >= 2,
-    histogram=lambda c, o: f"rl={'off' if not c['rl'] else 'on'} max={c['max']} crash={'y' if '!' in o else 'n'}",
+    histogram=lambda c, o: (f"rl={'off' if not c['rl'] else 'on'} max={c['max']} crash={'y' if '!' in o else 'n'}"
+                            + (" named" if c.get("name") else "")),
     rule="crash after every k of the remove/rename calls of rotate() (explicit and inside write) for 0-4 rotated "
          "files present and maxRotatedFiles in {None,0,1,2,3}, followed by more writes; random histories of 1-13 ops "
          "(thorough: also 40) of byte writes, multi-byte text writes, rotate(), reopen(), crashes, with rotateLength "
          "in {None,0,1..8} (big: 7,16,33), retention in {None,0,1,2,3}, 0-4 pre-existing rotated files (20% with gaps "
-         "in the numbering); non-trivial = at least two rotated files in some snapshot",
+         "in the numbering); log names with a sub-directory, glob metacharacters, spaces, non-ASCII; non-trivial = at least two rotated files in some snapshot",
     trusted=["hand-written model coq/C53/Model.v (tied by this correspondence run only)",
              "os.rename / os.remove are atomic and a killed process leaves the directory as the completed calls made "
              "it (files are opened unbuffered, so completed write() calls are in the file)"],
